@@ -398,9 +398,220 @@ func partB() {
 				bDestinations(n, del, kind)
 			}
 			bRealRouteDeleted(n, del)
+			if n >= 2 {
+				bHashDestinations(n, del, false)
+			}
+		}
+		if n >= 2 {
+			bHashDestinations(n, 0, true)
 		}
 	}
 	curHolder.Store((*holder)(nil))
+}
+
+// ---- consistent hashing: many dispatchers held between loading the route snapshot and using it
+//
+// Every name has one owner among the route's destinations (observed one line at a time before and after the
+// change). K dispatchers, one per name, are held at consistenthashing-after-load while a destination is deleted
+// (or added); each of them must then hand its line to the owner under the table before the change or to the
+// owner under the table after it. So a destination that is in both tables receives at least the lines of the
+// names it owns in both, and at most those it owns in either; nothing goes anywhere else.
+type multiHolder struct {
+	point   string
+	want    int32
+	n       int32
+	reached chan struct{}
+	release chan struct{}
+}
+
+var curMulti atomic.Value // *multiHolder
+
+func multiHook(p string) {
+	h, _ := curMulti.Load().(*multiHolder)
+	if h == nil || h.point != p {
+		hookFn(p)
+		return
+	}
+	if k := atomic.AddInt32(&h.n, 1); k <= h.want {
+		if k == h.want {
+			close(h.reached)
+		}
+		<-h.release
+	}
+}
+
+func bHashDestinations(n, del int, add bool) {
+	t := mon.NewTable("none", "none", false, "/nonexistent")
+	key := fmt.Sprintf("bh%d", u())
+	addrs := realRoute(t, key, n, "consistentHashing")
+	rt := t.GetRoute(key)
+	if add {
+		addrs = append(addrs, mon.ReservedAddr())
+	}
+	var ks []string
+	for _, a := range addrs {
+		ks = append(ks, mon.KeyDestDropNoConn(mon.DestKey(key, a)))
+	}
+	const K = 48
+	tag := u()
+	line := func(i int) []byte { return []byte(fmt.Sprintf("c18.h%d.n%d 1 1", tag, i)) }
+	// owner of every name: one line at a time, exactly one counter moves
+	owners := func(what string) ([]int, bool) {
+		out := make([]int, K)
+		for i := 0; i < K; i++ {
+			d := mon.NewDeltas(ks...)
+			rt.Dispatch(line(i))
+			waitCounters(d, ks, 1)
+			out[i] = -1
+			for j := range ks {
+				if d.Get(ks[j]) == 1 && out[i] == -1 {
+					out[i] = j
+				} else if d.Get(ks[j]) != 0 {
+					out[i] = -2
+				}
+			}
+			if out[i] < 0 {
+				res.Violate("hash-not-exactly-one", fmt.Sprintf("consistentHashing route with %d destinations (%s): the line %q moved the hand-off counters of not exactly one destination", n, what, line(i)), map[string]interface{}{"destinations": n})
+				return nil, false
+			}
+		}
+		return out, true
+	}
+	before, ok := owners("before the change")
+	if !ok {
+		return
+	}
+	what := fmt.Sprintf("DelDestination(%d)", del)
+	if add {
+		what = "Add(one more destination)"
+	}
+	res.LogCase("B hash-destinations n=%d %s", n, what)
+	h := &multiHolder{point: "consistenthashing-after-load", want: K, reached: make(chan struct{}), release: make(chan struct{})}
+	curMulti.Store(h)
+	route.VerifPoint = multiHook
+	d := mon.NewDeltas(ks...)
+	var wg sync.WaitGroup
+	panics := make(chan string, K)
+	for i := 0; i < K; i++ {
+		wg.Add(1)
+		go func(i int) {
+			defer wg.Done()
+			defer func() {
+				if r := recover(); r != nil {
+					panics <- fmt.Sprint(r)
+				}
+			}()
+			rt.Dispatch(line(i))
+		}(i)
+	}
+	select {
+	case <-h.reached:
+	case <-time.After(20 * time.Second):
+		res.Inconclusive("not all dispatchers reached consistenthashing-after-load")
+		close(h.release)
+		wg.Wait()
+		curMulti.Store((*multiHolder)(nil))
+		route.VerifPoint = hookFn
+		shutdownRoute(t, key)
+		return
+	}
+	if add {
+		ds, err := mon.ParseDestinations(t, key, addrs[n]+" spool=false reconn=3600000")
+		if err != nil || len(ds) != 1 {
+			panic(fmt.Sprint("ParseDestinations: ", err))
+		}
+		rt.(interface {
+			Add(*destination.Destination)
+		}).Add(ds[0])
+	} else {
+		t.DelDestination(key, del)
+	}
+	close(h.release)
+	done := make(chan struct{})
+	go func() { wg.Wait(); close(done) }()
+	select {
+	case <-done:
+	case <-time.After(30 * time.Second):
+		res.Inconclusive("held consistent-hashing dispatchers did not return within 30s after the release")
+		curMulti.Store((*multiHolder)(nil))
+		route.VerifPoint = hookFn
+		return
+	}
+	curMulti.Store((*multiHolder)(nil))
+	route.VerifPoint = hookFn
+	res.Eval(1)
+	res.Count("interleavings_forced", 1)
+	res.Count("hash_dispatchers_held", K)
+	select {
+	case p := <-panics:
+		res.Violate("stale-dispatch:hash-panic", fmt.Sprintf("consistentHashing route with %d destinations, %d dispatchers held after loading the route snapshot, %s, released: Dispatch panicked: %s", n, K, what, p),
+			map[string]interface{}{"destinations": n, "change": what, "panic": p})
+		shutdownRoute(t, key)
+		return
+	default:
+	}
+	// every line is handed to somebody (the deleted destination may discard): wait for the counters
+	lost := 0
+	for i := range before {
+		if !add && before[i] == del {
+			lost++
+		}
+	}
+	waitCounters(d, ks, int64(K-lost))
+	time.Sleep(5 * time.Millisecond)
+	got := make([]int64, len(ks))
+	var gotS []string
+	for j := range ks {
+		got[j] = d.Get(ks[j])
+		gotS = append(gotS, fmt.Sprintf("d%d:%d", j, got[j]))
+	}
+	// owners after the change (index space of addrs: a deleted destination keeps its slot, never an owner)
+	var after []int
+	{
+		ksAfter := ks
+		_ = ksAfter
+		after, ok = owners("after the change")
+		if !ok {
+			shutdownRoute(t, key)
+			return
+		}
+	}
+	lo := make([]int64, len(ks))
+	hi := make([]int64, len(ks))
+	for i := 0; i < K; i++ {
+		b, a := before[i], after[i]
+		if b == a {
+			lo[b]++
+			hi[b]++
+		} else {
+			hi[b]++
+			hi[a]++
+		}
+	}
+	var total int64
+	bad := ""
+	for j := range ks {
+		total += got[j]
+		if !add && j == del {
+			if got[j] > hi[j] {
+				bad = fmt.Sprintf("the deleted destination d%d was handed %d lines, it owned %d of the held names", j, got[j], hi[j])
+			}
+			continue
+		}
+		if got[j] < lo[j] || got[j] > hi[j] {
+			bad = fmt.Sprintf("destination d%d (in the table before and after) was handed %d of the held lines; it owns %d of the names under both tables and %d under either", j, got[j], lo[j], hi[j])
+		}
+	}
+	if bad == "" && (total > K || total < int64(K-lost)) {
+		bad = fmt.Sprintf("%d hand-offs for %d held lines (%d of them owned by the deleted destination)", total, K, lost)
+	}
+	if bad != "" {
+		res.Violate("stale-dispatch:hash-destinations", fmt.Sprintf("consistentHashing route with %d destinations, %d dispatchers held after loading the route snapshot, %s, released: %s (hand-offs %v)", n, K, what, bad, gotS),
+			map[string]interface{}{"destinations": n, "change": what, "handoffs": gotS, "owners_before": fmt.Sprint(before), "owners_after": fmt.Sprint(after)})
+	} else {
+		res.NonTrivial(fmt.Sprintf("B/hash/%d/%s", n, what))
+	}
+	shutdownRoute(t, key)
 }
 
 func bRoutes(n, del int) {
